@@ -103,7 +103,14 @@ def run_translator(cfg, res):
         return True
     p = sh([sys.executable, tr], cwd=ROOT, stdout=subprocess.PIPE, stderr=subprocess.STDOUT)
     res["translator"] = {"rc": p.returncode, "out": p.stdout.decode(errors="replace")[-2000:]}
-    return p.returncode == 0
+    ok = p.returncode == 0
+    # further extractors registered by the property (e.g. tools/extract_ffi.py for the C wrapper layer)
+    for extra in cfg.get("translators", []):
+        q = sh([sys.executable, os.path.join(ROOT, extra)], cwd=ROOT, stdout=subprocess.PIPE, stderr=subprocess.STDOUT)
+        res["translator"]["out"] += f"\n[{extra}] rc={q.returncode} " + q.stdout.decode(errors="replace")[-800:]
+        res["translator"]["rc"] = res["translator"]["rc"] or q.returncode
+        ok = ok and q.returncode == 0
+    return ok
 
 
 def lean_build(cfg, res):
